@@ -146,7 +146,12 @@ class CorralLearner(Learner):
 
             for l_brack, r_brack in zip(brackets[:-1], brackets[1:]):
 
-                if (f(l_brack+.00001)-1) * (f(r_brack-.00001)-1) >= 0:
+                # only step inside the bracket at an end where f has a pole. Stepping inside at
+                # min_loss/max_loss can step over a root that is closer than the step to that end.
+                l_probe = l_brack+.00001 if l_brack in denom_zeros else l_brack
+                r_probe = r_brack-.00001 if r_brack in denom_zeros else r_brack
+
+                if (f(l_probe)-1) * (f(r_probe)-1) >= 0:
                     continue
                 else:
                     # we use binary search because newtons
